@@ -135,7 +135,8 @@ Enq(s, a, cmd) == IF Alive(s, a) THEN [s EXCEPT !.cmdq[a] = Append(@, cmd)] ELSE
 
 \* answer to a command that came in through the handle
 \* (api: schedule; stray: recorded; party: RPC reply on its way back)
-StrayName(cmd) == IF cmd.t = "Run" /\ cmd.from = 1 THEN "RunEarly" ELSE cmd.t
+StrayName(cmd) == IF cmd.t = "Run" /\ cmd.from = 1 THEN "RunEarly"
+                  ELSE IF cmd.t = "Consts" /\ cmd.from = 99 THEN "ConstsBad" ELSE cmd.t
 Answer(s, a, cmd, ok) ==
   IF cmd.src = "api" THEN
     (IF cmd.t = "Schedule" THEN [s EXCEPT !.sched[a] = IF ok THEN "ok" ELSE "err"]
@@ -199,7 +200,7 @@ CallCancel(a) ==
 \* stray commands through the public handle: duplicate schedule, run / consts /
 \* validate that the protocol does not expect now, an MPC message with a
 \* sender index out of range ("MsgBad")
-StrayKinds == {"Schedule", "Run", "Consts", "Validate", "MsgBad", "MsgEarly", "RunEarly"}
+StrayKinds == {"Schedule", "Run", "Consts", "Validate", "MsgBad", "MsgEarly", "RunEarly", "ConstsBad"}
 NotYetValidated(a) == kind[a] \in {"Init", "AwaitingValidation", "ValidateRequested"}
 ActorQuiet(a) == hpc[a].pc = "idle" /\ cmdq[a] = << >>
 StrayAllowed(a, t) ==
@@ -210,6 +211,7 @@ StrayAllowed(a, t) ==
     \* invalid for the current state
     [] t = "Validate" -> (~NotYetValidated(a) \/ kind[a] = "ValidateRequested") /\ kind[a] # "Stopped" /\ ActorQuiet(a)
     [] t = "MsgBad" -> TRUE                                  \* sender index >= number of participants
+    [] t = "ConstsBad" -> TRUE                               \* constants from an index >= number of participants
     [] t = "MsgEarly" -> sched[a] = "none"                   \* in-range sender, before scheduling
     \* a run request that reaches the leader while it is still inside its schedule step (a retried or misrouted
     \* request): it waits in the queue and is handled once the policy is validated -- as a valid run; the run
@@ -222,6 +224,7 @@ Inject(a, t) ==
   /\ LET s == [St EXCEPT !.budget.stray = @ - 1] IN
      Commit(IF Alive(s, a) THEN Enq(s, a, IF t = "Validate" THEN ValCmd("stray", 0, PolOf(a).leader, PolOf(a).prog)
                                           ELSE IF t = "RunEarly" THEN [Cmd("Run", "stray") EXCEPT !.from = 1]
+                                          ELSE IF t = "ConstsBad" THEN [Cmd("Consts", "stray") EXCEPT !.from = 99]
                                           ELSE Cmd(t, "stray"))
             ELSE [s EXCEPT !.strays[a] = Append(@, [cmd |-> t, res |-> "stopped"])])
 
@@ -297,6 +300,8 @@ HRun(s, a, cmd) ==
     [] OTHER -> Answer(s, a, cmd, FALSE)
 
 HConsts(s, a, cmd) ==
+  \* constants from an index outside the participants are refused in every state (fix constsBoundsCheck)
+  IF cmd.src = "stray" /\ cmd.from = 99 THEN Answer(s, a, cmd, FALSE) ELSE
   LET ins(t) == IF cmd.src = "rpc" /\ Pol[a[1]][cmd.from + 1].consts
                 THEN [t EXCEPT !.consts[a] = @ \cup {cmd.from}] ELSE t IN
   CASE s.kind[a] \in {"Validated", "SendingConsts"} -> Answer(ins(s), a, cmd, TRUE)
